@@ -15,7 +15,7 @@ Require Import Num Vec Tree C15_Model.
 Extraction Language OCaml.
 Extraction "c15model.ml" calcSystemMass calcSystemMassCenterLocationInGround calcSystemMassCenterVelocityInGround
   calcSystemMassCenterAccelerationInGround sysMassPropsInertia calcSystemCentralInertiaInGround
-  calcSystemMomentumAboutGroundOrigin calcSystemCentralMomentum calcKineticEnergy out_cbi mkBody mkCbx
+  calcSystemMomentumAboutGroundOrigin calcSystemCentralMomentum calcKineticEnergy out_cbi out_cbiG mkBody mkCbx
   mkBodyB mkCbxB toG transformedMassPropsB bodyCentralMomentumB.
 '''
 
@@ -40,7 +40,7 @@ def parse(out, indexed):
     for line in out.split('\n'):
         t = line.split()
         if not t: continue
-        if t[0] == 'SYS': cur = {'inputs': [line], 'outs': collections.OrderedDict(), 'types': [], 'nb': int(t[1]), 'mode': int(t[2]), 'flag': int(t[3]), 'massless': 0}
+        if t[0] == 'SYS': cur = {'inputs': [line], 'outs': collections.OrderedDict(), 'types': [], 'nb': int(t[1]), 'mode': int(t[2]), 'flag': int(t[3]), 'massless': 0, 'lone': []}
         elif t[0] == 'END':
             if cur is not None: systems.append(cur); cur = None
         elif t[0] == 'SKIP': systems.append(None)
@@ -52,23 +52,24 @@ def parse(out, indexed):
             cur['inputs'].append(line)
             if t[0] == 'BODY':
                 cur['types'].append((t[3], int(t[4])))
+                if t[3].startswith('Lone'): cur['lone'].append(int(t[1]))
                 if t[1] != '0' and float.fromhex(t[8]) == 0.0: cur['massless'] += 1
     return systems
 
-def compare(ctx, pid, d, mode, nsys, maxb, indexed, rtol, atol, seed_offset=0, skip=None):
+def compare(ctx, pid, d, mode, nsys, maxb, indexed, rtol, atol, seed_offset=0, skip=None, route=None, drv_args=()):
     """run probe and model driver on the same systems, compare every OUT line; returns (n, disagreements, stats)"""
     seed = ctx.seed + seed_offset
     rc1, o1, e1 = sh([os.path.join(d, 'probe'), mode, str(seed), str(nsys), str(maxb)], timeout=1800)
     if rc1 != 0:
         ctx.broken.append(('correspondence:' + pid, 'probe failed rc=%d %s' % (rc1, e1[-400:]))); return 0, [], {}
-    rc2, o2, e2 = sh([os.path.join(d, 'drv')], input=o1, timeout=1800)
+    rc2, o2, e2 = sh([os.path.join(d, 'drv')] + list(drv_args), input=o1, timeout=1800)
     if rc2 != 0:
         ctx.broken.append(('correspondence:' + pid, 'model driver failed rc=%d %s' % (rc2, e2[-400:]))); return 0, [], {}
     P1 = parse(o1, indexed); skipped = sum(1 for s in P1 if s is None)
     S1 = [s for s in P1 if s is not None]; S2 = [s for s in parse(o2, indexed) if s is not None]
     if len(S1) != len(S2) or not S1:
         ctx.broken.append(('correspondence:' + pid, 'system count mismatch %d vs %d' % (len(S1), len(S2)))); return 0, [], {}
-    dis = []; ncmp = collections.Counter(); typehist = collections.Counter(); modehist = collections.Counter(); distinct = set(); nontriv = 0; nmassless = 0; flaghist = collections.Counter(); nskip = collections.Counter()
+    dis = []; ncmp = collections.Counter(); typehist = collections.Counter(); modehist = collections.Counter(); distinct = set(); nontriv = 0; nmassless = 0; flaghist = collections.Counter(); nskip = collections.Counter(); routed = {}
     for k, (a, b) in enumerate(zip(S1, S2)):
         for ty in a['types']: typehist['%s%s' % (ty[0], '(rev)' if ty[1] else '')] += 1
         modehist[a['mode']] += 1; nmassless += a['massless']; flaghist[a['flag']] += 1
@@ -82,20 +83,25 @@ def compare(ctx, pid, d, mode, nsys, maxb, indexed, rtol, atol, seed_offset=0, s
             ncmp[key[0]] += 1
             sc = max([1.0] + [abs(x) for x in va if x == x and abs(x) != float('inf')])
             if vb is None or len(vb) != len(va) or not all(close(x, y, rtol, atol, sc) for x, y in zip(va, vb)):
-                dis.append({'system': k, 'seed': seed, 'tag': key[0], 'index': key[1], 'impl': va, 'model': vb, 'inputs': a['inputs']})
+                entry = {'system': k, 'seed': seed, 'tag': key[0], 'index': key[1], 'impl': va, 'model': vb, 'inputs': a['inputs']}
+                rk = route(a, key) if route else None
+                if rk: routed.setdefault(rk, []).append(entry)
+                else: dis.append(entry)
         for key in b['outs']:
             if key not in a['outs']:
                 dis.append({'system': k, 'seed': seed, 'tag': key[0], 'index': key[1], 'impl': None, 'model': b['outs'][key], 'inputs': a['inputs']})
     stats = {'systems': len(S1), 'skipped_by_generator': skipped, 'compared_per_tag': dict(ncmp), 'not_compared_outside_theorem_domain': dict(nskip), 'mobilizer_histogram': dict(typehist),
              'mass_mode_histogram': {str(k): v for k, v in modehist.items()}, 'massless_bodies': nmassless, 'flag_histogram': {str(k): v for k, v in sorted(flaghist.items())},
-             'distinct_type_vectors': len(distinct), 'rtol': rtol, 'atol': atol, 'max_bodies': maxb}
+             'distinct_type_vectors': len(distinct), 'rtol': rtol, 'atol': atol, 'max_bodies': maxb,
+             'disagreements_routed_to_known_findings': {k: len(v) for k, v in routed.items()}}
+    ctx.routed = routed
     first = S1[0]
     sample = {'bodies': [l[:160] for l in first['inputs'] if l.startswith('BODY')][:2],
               'impl': {('%s' % k[0]): v for k, v in list(first['outs'].items())[:3]}, 'model': {('%s' % k[0]): v for k, v in list(S2[0]['outs'].items())[:3]}}
     ctx.add_cases(len(S1), nontriv, [sample])
     return len(S1), dis, stats
 
-def search(ctx, pid, d, n, maxb):
+def search(ctx, pid, d, n, maxb, keymap=None):
     exe = os.path.join(d, 'probe') if d else ctx.bdir('probe_search')
     if not d and not ctx.cxx(os.path.join(VERIF, 'harness', '%s_probe.cpp' % pid), exe):
         ctx.broken.append(('search:' + pid, 'search harness does not compile')); return
@@ -105,31 +111,46 @@ def search(ctx, pid, d, n, maxb):
     ctx.extra['search'] = {'systems': n, 'predicate_evaluations': int(done[0].split()[1]) if done else 0, 'failures': len(fails)}
     if rc != 0 and not done:
         ctx.broken.append(('search:' + pid, 'search harness failed rc=%d %s' % (rc, err[-300:])))
-    for f in fails[:1]:
-        ctx.report('impl:' + f.split()[2], 'implementation violates %s predicate: %s' % (pid, f),
+    seen = set()
+    for f in fails:
+        name = f.split()[2]
+        if name in seen: continue
+        seen.add(name)
+        key = (keymap or {}).get(name, 'impl:' + name)
+        ctx.report(key, 'implementation violates %s predicate: %s' % (pid, f),
                    {'replay_cmd': '%s search %d %d %d' % (exe, ctx.seed + 7, n, maxb), 'failing_input': f})
+    ctx.extra['search']['failing_predicates'] = sorted(seen)
 
 def witness(ctx, d):
     """replay of the floating-point defect outside the theorems' domain: a chain of two massless welded frames on a massive body"""
     rc, out, err = sh([os.path.join(d, 'probe'), 'witness'], timeout=300)
     w = [l for l in out.split('\n') if l.startswith('WITNESS cbi-nan-massless-chain')]
     ctx.extra['witness_cbi_nan_massless_chain'] = w[0] if w else 'witness did not run: rc=%d %s' % (rc, err[-200:])
-    if w and ' nan=1 ' in w[0]:
+    if not w:
+        ctx.broken.append(('witness:C15', 'witness did not run')); return False
+    if ' nan=0 ' in w[0]: return True
+    if ' nan=1 ' in w[0]:
         ctx.report('cbi-nan-massless-chain',
                    'calcCompositeBodyInertias: Ground-Pin->B1(mass 2)-Weld->B2(massless)-Weld->B3(massless) gives a NaN composite inertia for B1 '
                    '(SpatialInertia::operator+= divides by the combined mass 0+0 of B2 and B3); the sum over the subtree is the inertia of B1: ' + w[0],
                    {'replay_cmd': '%s witness' % os.path.join(d, 'probe'), 'failing_input': w[0]})
+    return False
 
 def run(ctx):
     ctx.build_repo()
     ctx.coq_props(PROPS)
     d = build(ctx, 'C15', 'C15/C15_Model.vo', EXTRACT, 'c15model', 'C15_drv.ml', 'C15_probe.cpp')
     if d:
-        nsys, maxb = (400, 10) if ctx.tier == 'quick' else (6000, 14)
-        # composite inertias are compared on the theorems' domain (every subtree has non-zero mass); in the all-massless systems (mode 2)
-        # the code divides 0/0 (known finding cbi-nan-massless-chain, replayed below) and a repaired code would differ from the faithful model
+        nsys, maxb = (1000, 10) if ctx.tier == 'quick' else (8000, 14)
+        # which composite-inertia recursion does the code under test run?  The witness (chain of two massless welded frames) decides:
+        #  NaN  -> the current code: faithful model [cbi]; compared on its theorem's domain (every subtree has non-zero mass), i.e. not in
+        #          the all-massless systems (mode 2) where the code divides 0/0 (known finding cbi-nan-massless-chain, reported by witness())
+        #  finite -> the code carries the repair of patches/C15_cbi_massless_chain.diff: model [cbiG] (theorem cbiG_is_direct_sum), all systems
+        repaired = witness(ctx, d)
+        ctx.extra['composite_inertia_model'] = 'cbiG (zero-mass child composites skipped)' if repaired else 'cbi (current code)'
         n, dis, stats = compare(ctx, 'C15', d, 'corr', nsys, maxb, INDEXED, 1e-9, 1e-11,
-                                skip=lambda sysm, key: key[0] in ('CBI', 'CBIC') and sysm['mode'] == 2)
+                                skip=None if repaired else (lambda sysm, key: key[0] in ('CBI', 'CBIC') and sysm['mode'] == 2),
+                                drv_args=['guarded'] if repaired else [])
         ctx.extra['correspondence'] = stats
         if dis:
             x = dis[0]
@@ -148,8 +169,6 @@ def run(ctx):
                         'orthonormality of simbody\'s Rotation being C27\'s subject',
                         'composite inertia theorems need every partial combined mass non-zero (holds when no mass is negative and no terminal body is massless); '
                         'aggregate theorems that divide need total mass non-zero']
-    if d:
-        witness(ctx, d)
     if ctx.broken or ctx.tier == 'thorough':
         search(ctx, 'C15', d, 600 if ctx.tier == 'quick' else 6000, 12)
     ctx.finish()
